@@ -1,4 +1,7 @@
-"""C11 — -D/-I/-isystem/-include are extracted from any command line, robustly.
+"""C11 — -D/-U/-I/-isystem/-include are extracted from any command line, robustly.
+
+-U NAME (either spelling) is an option of the parser (`_UndefineAction`): the configuration's defines are the definitions
+*in force* after processing -D / -U left to right (Spec/Extract.lean; theorems Props/C11Undef.lean).
 
 Implementation: codebasin.config.ArgumentParser(argv0).parse_args(argv) (the call load_database makes),
                 codebasin.CompileCommand(command=...).arguments, config.load_database
@@ -35,7 +38,7 @@ import sys
 
 from harness import core
 
-MODELLED = {"-D": "defines", "-I": "user", "-isystem": "system", "-include": "files"}
+MODELLED = {"-D": "defines", "-I": "user", "-isystem": "system", "-include": "files", "-U": "undefs"}
 LONG = ("-isystem", "-include")
 
 # ---- catalogue -----------------------------------------------------------------------------------
@@ -44,12 +47,12 @@ UNMODELLED_SINGLE = [
     "-g3", "-ggdb", "-gdwarf-4", "-O2", "-O", "-Ofast", "-g", "-c", "-Wall", "-Wextra", "-Werror=format",
     "-std=c++17", "-std=gnu11", "-MD", "-MMD", "-MP", "-fPIC", "-fno-exceptions", "-march=native", "-mavx2",
     "@build/flags.rsp", "-pthread", "-Wl,-rpath,/x", "--sysroot=/y", "-pipe", "-shared", "-L/usr/lib", "-lm",
-    "-S", "-E", "-v", "-w", "-nostdinc", "-UNDEBUG", "-qopenmp", "-arch=sm_70", "-rdynamic", "-fsycl-unnamed-lambda",
+    "-S", "-E", "-v", "-w", "-nostdinc", "-qopenmp", "-arch=sm_70", "-rdynamic", "-fsycl-unnamed-lambda",
     "-ffast-math", "-fvisibility=hidden", "-cxx-isystem/opt/cxx", "-Xclang", "-", "file.c", "src/a b.cpp",
     "--std=c++14", "-fdiagnostics-color=always", "-Winvalid-pch", "-iprefix/p", "-o-",
 ]
 UNMODELLED_PAIR = [
-    ("-MF", "x.d"), ("-MT", "t.o"), ("-ccbin", "g++"), ("-x", "c++"), ("-o", "out.o"), ("-U", "NDEBUG"),
+    ("-MF", "x.d"), ("-MT", "t.o"), ("-ccbin", "g++"), ("-x", "c++"), ("-o", "out.o"),
     ("-Xcompiler", "-rdynamic"), ("-idirafter", "/after"), ("-iquote", "q"), ("-imacros", "m.h"),
     ("-isysroot", "/sr"), ("-cxx-isystem", "/cxx"), ("-c", "main.c"), ("-O", "x.c"), ("-target", "x86_64-linux"),
     ("--param", "max-inline=3"), ("-arch", "sm_80"),
@@ -61,8 +64,19 @@ VALUES = [
 # shapes of the recorded findings (and near misses)
 EXOTIC = [
     "--", "-isystem/sys", "-include/pre.h", "-isystem=dir", "-include=f.h", "-I=rel", "-D=x", "-D--", "-I--",
-    "-i", "-is", "-isys", "-isyste", "-in", "-inc", "-includ", "-isystemd", "-included",
+    "-i", "-is", "-isys", "-isyste", "-in", "-inc", "-includ", "-isystemd", "-included", "-U=A", "-U--",
 ]
+# -U in both spellings against the -D values of the catalogues (A, A=1, A=-1, N="a b", F(x)=(x+1), X='q', _GNU_SOURCE)
+UNDEFS = ["-UA", "-UN", "-UF", "-UX", "-UNDEBUG", "-U_GNU_SOURCE", "-UA=1"]
+
+
+def macro_name(d):
+    """the macro a -D value defines: the text before the first '=' or '('"""
+    for i, ch in enumerate(d):
+        if ch in "=(":
+            return d[:i]
+    return d
+
 
 
 def modelled_items():
@@ -86,7 +100,7 @@ def catalogue_full():
         cat.append(f)
     for x in ["A", "A=1", "N=\"a b\"", "a b", "", "inc", "-1", "-x", "=eq", "X='q'",
               "-DA", "-DA=1", "-DN=\"a b\"", "-DX='q'", "-D-x", "-DA=-1", "-Da b", "-Iinc", "-I/abs/inc", "-I-",
-              "-Idir with space", "-I..", "-D_GNU_SOURCE", "-DF(x)=(x+1)", "-DV=1#2"]:
+              "-Idir with space", "-I..", "-D_GNU_SOURCE", "-DF(x)=(x+1)", "-DV=1#2", "N", "F", "X"] + UNDEFS:
         if x not in cat:
             cat.append(x)
     for x in EXOTIC:
@@ -103,6 +117,7 @@ def catalogue_core():
         "-O2", "-O", "-g3", "-ggdb", "-g", "-c", "-o", "out.o", "-Wall", "-std=c++17", "-MF", "-MD", "-fPIC",
         "-ccbin", "-x", "-march=native", "@rsp", "file.c", "-pthread", "-Wl,-rpath,/x", "--sysroot=/y", "-cxx-isystem",
         "-iquote", "-UNDEBUG", "--", "-isystem/sys", "-include/pre.h", "-I=rel", "-i", "-isys", "-in", "-D--",
+        "-U", "-UA", "A", "-DA=1",
     ]
 
 
@@ -113,7 +128,7 @@ def catalogue_mid():
             "-fvisibility=hidden", "-Xclang", "--std=c++14", "-fdiagnostics-color=always", "-Winvalid-pch", "t.o", "-MT",
             "-Xcompiler", "/after", "-idirafter", "q", "m.h", "-imacros", "/sr", "-isysroot", "/cxx", "main.c", "x.c",
             "-target", "x86_64-linux", "--param", "max-inline=3", "-arch", "sm_80", "-DA=1", "-DX='q'", "-I/abs/inc",
-            "-I..", "-D_GNU_SOURCE", "-isyste", "-includ", "-isystemd", "-included", "-is", "-inc"}
+            "-I..", "-D_GNU_SOURCE", "-isyste", "-includ", "-isystemd", "-included", "-is", "-inc", "-U_GNU_SOURCE", "-UX", "X"}
     return [x for x in catalogue_full() if x not in drop]
 
 
@@ -122,7 +137,7 @@ def catalogue_mini():
     return [
         "-D", "-I", "-isystem", "-include", "A=1", "a b", "-x", "-1", "-",
         "-DA", "-D-x", "-Iinc", "-O2", "-O", "-g3", "-c", "-o", "-Wall", "-std=c++17", "-MF", "-ccbin", "@rsp", "file.c",
-        "--sysroot=/y", "-cxx-isystem", "--", "-isystem/sys", "-I=rel", "-i", "-isys", "-D--",
+        "--sysroot=/y", "-cxx-isystem", "--", "-isystem/sys", "-I=rel", "-i", "-isys", "-D--", "-U", "-UA", "A",
     ]
 
 
@@ -134,19 +149,25 @@ def reading(a):
     return ("other", None, None)
 
 
-def py_extract(argv):
-    lists = {"defines": [], "user": [], "system": [], "files": []}
+def py_extract(argv, cancel=True):
+    lists = {"defines": [], "user": [], "system": [], "files": [], "undefs": []}
+
+    def add(f, v):
+        lists[MODELLED[f]].append(v)
+        if f == "-U" and cancel:  # cancels the definitions of that macro made so far; a later -D defines it again
+            lists["defines"] = [d for d in lists["defines"] if macro_name(d) != v]
+
     pend = None
     for a in argv:
         if pend is not None:
-            lists[MODELLED[pend]].append(a)
+            add(pend, a)
             pend = None
             continue
         k, f, v = reading(a)
         if k == "sep":
             pend = f
         elif k == "att":
-            lists[MODELLED[f]].append(v)
+            add(f, v)
     return {"defines": lists["defines"], "include_paths": lists["user"] + lists["system"], "include_files": lists["files"]}
 
 
@@ -156,9 +177,9 @@ def plain_value(v):
 
 def tags_of1(a):
     t = []
-    if a in ("--", "-D--", "-I--"):
+    if a in ("--", "-D--", "-I--", "-U--"):
         t.append("D23")
-    if a.startswith("-D=") or a.startswith("-I="):
+    if a.startswith("-D=") or a.startswith("-I=") or a.startswith("-U="):
         t.append("D36")
     if any(a.startswith(f) and len(a) > len(f) for f in LONG):
         t.append("D21")
@@ -239,6 +260,9 @@ def explained_by(classes, outcome, argv=()):
         if fid == "D22":
             # the ambiguous prefix -i makes argparse exit during the up-front classification, wherever it stands
             ok = ("D22abbrev" in hit) or outcome == "ArgumentError" or (outcome == "SystemExit" and "-i" in argv)
+        elif fid == "D23" and outcome == "TypeError":
+            # the empty list that -D-- stored among the defines is filtered by a later -U (re.split on a list)
+            ok = "-D--" in argv and any(a.startswith("-U") for a in list(argv)[list(argv).index("-D--") + 1:])
         else:
             ok = outcome in kinds
         if ok:
@@ -387,6 +411,12 @@ def evaluate(impl, drv, acc, stream, argv, argv0=UNKNOWN_ARGV0, rng=None, reply=
     if tame:
         acc.tame[stream] += 1
     n_mod = len(spec["defines"]) + len(spec["include_paths"]) + len(spec["include_files"])
+    if any(a.startswith("-U") for a in argv):
+        all_d = py_extract(argv, cancel=False)["defines"]
+        acc.dist["undef:-U cancels a definition" if len(all_d) > len(spec["defines"]) else "undef:-U cancels nothing"] += 1
+        gone = {macro_name(x) for x in (collections.Counter(all_d) - collections.Counter(spec["defines"]))}
+        if any(macro_name(d) in gone for d in spec["defines"]):
+            acc.dist["undef:macro defined again after its -U"] += 1
     kind = outcome_kind(got)
     acc.dist[f"{stream}:len={min(len(argv), 9) if len(argv) < 10 else '10+'}"] += 1
     acc.dist["outcome:" + kind] += 1
@@ -543,6 +573,10 @@ def merge(ctx, acc, distinct=True):
     ctx.evaluations += acc.evals
     ctx.dist.update(acc.dist)
     ctx.extra["full_model_compared_ok_outcomes"] = ctx.extra.get("full_model_compared_ok_outcomes", 0) + acc.full_ok
+    und = ctx.extra.setdefault("undefine_lines", {})
+    for k, v in acc.dist.items():
+        if k.startswith("undef:"):
+            und[k[6:]] = und.get(k[6:], 0) + v
     if distinct:
         ctx.nontrivial.bump(acc.nontrivial)
     st = ctx.extra.setdefault("tame_rate", {})
@@ -593,6 +627,16 @@ def rand_value(rng, dash_p=0.15):
     return v
 
 
+def undef_target(rng, argv):
+    """a name for -U: with probability 0.6 the macro of a -D already on the line (both spellings), else None"""
+    names = [macro_name(v) for k, f, v in (reading(a) for a in argv) if k == "att" and f == "-D"]
+    names += [macro_name(argv[i + 1]) for i in range(len(argv) - 1) if argv[i] == "-D"]
+    names = [x for x in names if x and not x.startswith("-") and x != "--"]
+    if names and rng.random() < 0.6:
+        return rng.choice(names)
+    return None
+
+
 def rand_items(rng, n, exotic_p=0.04, known_compiler=False):
     argv = []
     while len(argv) < n:
@@ -605,10 +649,10 @@ def rand_items(rng, n, exotic_p=0.04, known_compiler=False):
             argv.extend(rng.choice(UNMODELLED_PAIR))
         elif r < 0.80:
             f = rng.choice(list(MODELLED))
-            argv.extend([f, rand_value(rng, dash_p=4 * exotic_p)])
+            argv.extend([f, (undef_target(rng, argv) if f == "-U" else None) or rand_value(rng, dash_p=4 * exotic_p)])
         else:
             f = rng.choice(list(MODELLED))
-            v = rand_value(rng, dash_p=1.0)
+            v = (undef_target(rng, argv) if f == "-U" else None) or rand_value(rng, dash_p=1.0)
             if f in LONG or v.startswith("=") or v == "--":
                 if rng.random() >= 4 * exotic_p:
                     f = rng.choice(["-D", "-I"])
@@ -630,8 +674,11 @@ def realistic(rng):
             argv.append(rng.choice(singles))
         elif r < 0.45:
             argv.extend(rng.choice(pairs))
-        elif r < 0.70:
+        elif r < 0.64:
             argv.extend(["-D" + rng.choice(names)] if rng.random() < 0.85 else ["-D", rng.choice(names)])
+        elif r < 0.70:
+            u = macro_name(rng.choice(names))
+            argv.extend(["-U" + u] if rng.random() < 0.85 else ["-U", u])
         elif r < 0.88:
             d = rng.choice(dirs)
             argv.extend(["-I" + d] if rng.random() < 0.8 else ["-I", d])
@@ -857,8 +904,8 @@ def run(ctx, drv):
     full, corecat = catalogue_full(), catalogue_core()
     ctx.rule = (
         f"argument vectors over a catalogue of {len(full)} elements ({len(UNMODELLED_SINGLE) + len(UNMODELLED_PAIR)} real "
-        "gcc/clang/icx/nvcc options CBI does not model, the modelled flags in both spellings with values containing =, quotes, blanks, "
-        f"leading dashes, and the shapes of the recorded findings): exhaustive for <= 2 elements over the full catalogue and <= 3 over a "
+        "gcc/clang/icx/nvcc options CBI does not model, the modelled flags -D/-U/-I/-isystem/-include in both spellings with values containing =, quotes, blanks, "
+        f"leading dashes, -U of the catalogue's macros before and after their -D, and the shapes of the recorded findings): exhaustive for <= 2 elements over the full catalogue and <= 3 over a "
         f"{len(corecat)}-element core catalogue (quick); additionally <= 3 over {len(catalogue_mid())} elements (the full catalogue without near-duplicates) and "
         f"<= 4 over {len(catalogue_mini())} elements, one of every kind (thorough); item-structured random vectors up to 40 elements; "
         "cmake-like realistic lines; the same under the compilers CBI knows; compile_commands.json entries in both forms. "
@@ -866,6 +913,7 @@ def run(ctx, drv):
         "On every vector of the fixed-table streams the real parser.parse_known_args result (four lists separately, namespace.file, extras, "
         "class of abort) is compared with the full Lean model of _parse_known_args (op c11full); on the random/realistic streams plain "
         "positionals are inserted at a place where the model is not inside a flag/value pair and the real parser must return the same lists. "
+        "-U: the random streams name the macro of a -D already on the line in 60 % of the -U items (both spellings), the realistic stream undefines its own names. "
         "Non-trivial = the implementation returns a configuration, the line contains at least one modelled value and at least one other argument."
     )
     ctx.assumptions += [
